@@ -116,6 +116,7 @@ def step (ordered : Bool) (pool : List JVal) : Op → Res × List JVal
   | .eraseRange a lo hi =>
     match getSlot pool a with
     | .arr xs => if lo > hi ∨ hi > xs.length then (.range, pool) else (.none, setSlot pool a (.arr (xs.take lo ++ xs.drop hi)))
+    | .obj ms => if lo > hi ∨ hi > ms.length then (.range, pool) else (.none, setSlot pool a (.obj (ms.take lo ++ ms.drop hi)))   -- erase(first, last) on object_range()
     | _ => (.exc, pool)
   | .resize a n =>
     match getSlot pool a with
